@@ -113,6 +113,25 @@ def run(ctx, rep):
         k += len(w)
         ok = False
         for bb, i, s in w:
-            ok = ok or E.mentions_call(ff.rv_expr(s), "Clock::now")
-        adder(rep, f)("R17d", "received data refreshes last_communication_timestamp", ok, "no refresh of the liveliness timestamp in this receive loop")
+            # the value must BE the local clock reading (the lease is compared against the local clock later);
+            # a timestamp taken from the message (sender's clock) is not acceptable
+            ok = ok or E.is_call(E.strip_casts(ff.rv_expr(s)), "Clock::now")
+        adder(rep, f)("R17d", "received data refreshes last_communication_timestamp with the local clock", ok,
+                      "last_communication_timestamp is not set to Clock::now() in this receive loop (e.g. it is taken from the message)")
     rep.floor("R17d", k, 2, "last_communication_timestamp refresh sites")
+    # R17f: the announcement always carries the local domain id and tag (the receiver treats an absent id as "my domain")
+    an = fx.fn("DcpsDomainParticipant", "announce_participant")
+    af = FnCtx(an)
+    okid = oktag = False
+    for bb, i, s in af.aggregates("ParticipantProxy"):
+        flds = s.rv.agg["fields"]
+        e = af.rv_expr(s)
+        if "domain_id" in flds:
+            x = e[3][flds.index("domain_id")]
+            okid = x[0] == "adt" and x[2] == "Some" and x[3] and x[3][0][0] == "param" and x[3][0][2][-1:] == ("domain_id",)
+        if "domain_tag" in flds:
+            y = e[3][flds.index("domain_tag")]
+            oktag = E.mentions_field(y, "domain_tag")
+    adder(rep, an)("R17f", "announced participant data always carries Some(local domain id)", okid,
+                   "PID_DOMAIN_ID can be omitted or altered in the announcement: a receiver in another domain assumes its own domain id and matches")
+    adder(rep, an)("R17f", "announced participant data carries the local domain tag", oktag, "domain_tag of the announcement is not the local one")
